@@ -1,6 +1,7 @@
 package main
 
 import (
+	"sync"
 	"fmt"
 	"go/token"
 	"go/types"
@@ -32,6 +33,9 @@ type Prog struct {
 	noExport     map[string]bool      // ensures obligations with an open known finding: never assumed at call sites
 	ghostSets    map[*ssa.Function]map[string]bool
 	findings     map[string][]KnownFinding // by obligation name
+	immutableViolations map[string][]string // type -> stores found outside the listed constructors (reported as a failed obligation)
+	setsOnce       sync.Once
+	setsGhosts     map[string]bool // ghosts named by some `sets` clause
 	immutableSorts map[string]bool         // heap sorts of struct types that are never written after construction
 	lateText     string
 	lateTypes    []string
@@ -166,7 +170,10 @@ func loadProg(repo, verifDir string) (*Prog, error) {
 							if _, isAlloc := fa.X.(*ssa.Alloc); isAlloc {
 								continue // a local value of the type being built
 							}
-							return nil, fmt.Errorf("immutable %s: %s stores to field %d", tn, fn, fa.Field)
+							if p.immutableViolations == nil {
+								p.immutableViolations = map[string][]string{}
+							}
+							p.immutableViolations[tn] = append(p.immutableViolations[tn], fmt.Sprintf("%s stores to field %d", fn, fa.Field))
 						}
 					}
 				}
@@ -675,6 +682,24 @@ func (p *Prog) ghostsSetByCall(c *ssa.CallCommon) map[string]bool {
 // callRuleUnits: call-graph frame rules ("only F calls G") checked syntactically over the module's SSA.
 func (p *Prog) callRuleUnits() []*Unit {
 	var out []*Unit
+	// the syntactic immutability checks (`immutable LABEL: pkg.Type except ...`), one obligation each
+	var tns []string
+	for tn := range p.cs.ImmutableLabel {
+		tns = append(tns, tn)
+	}
+	sort.Strings(tns)
+	for _, tn := range tns {
+		u := p.newUnit(nil)
+		u.thName = p.cs.ImmutableLabel[tn]
+		goal := "(= 0 0)"
+		if v := p.immutableViolations[tn]; len(v) > 0 {
+			goal = "false"
+			sort.Strings(v)
+			u.note("immutable %s: %v", tn, v)
+		}
+		u.obligs = append(u.obligs, &Oblig{Name: u.thName, Props: propsOf(u.thName), Kind: "immutable", Goal: goal, Unit: u})
+		out = append(out, u)
+	}
 	for _, r := range p.cs.CallRules {
 		u := p.newUnit(nil)
 		u.thName = r.Label
